@@ -515,7 +515,11 @@ let handle_semw fields =
            oracle_fail "semw" input ("FAIL C09: recorded type " ^ field "type" impl ^ " does not carry the written width and nothing is diagnosed")
        | None ->
          if idiag = "None" then begin
-           if Declared.k_nonconst_designator d then known_hit "semw" "C09.nonconst_designator" input
+           (* the listed finding is "no width recorded, nothing diagnosed"; a number invented for a
+              non-constant designator is something else *)
+           if Declared.k_nonconst_designator d && Declared.type_width k ity = None then known_hit "semw" "C09.nonconst_designator" input
+           else if Declared.k_nonconst_designator d then
+             oracle_fail "semw" input ("FAIL C09: a designator that is not a constant gives the recorded type " ^ field "type" impl ^ " a width, and nothing is diagnosed")
            else oracle_fail "semw" input "FAIL C09: a designator that is not a constant integer is not diagnosed"
          end);
       if orc <> "ok" then oracle_fail "semw" input orc
